@@ -55,6 +55,7 @@ inductive Piece where
 
 structure Site where
   id : String            -- stable key: 8 hex digits of sha256(file, function, template)
+  num : Nat              -- the same 32 bits as a number (cheap to compare in the kernel)
   drv : String           -- "psql" | "esql"
   file : String
   fn : String            -- entry point (callees are inlined): e.g. "Graph.DelVertex"
@@ -232,7 +233,7 @@ def pieceDollarFree : Piece → Bool
     literal / quoted identifier.  `safe_site_shape` shows that this implies shape independence for
     *all* argument strings. -/
 def Site.safeOn (s : Site) (env : Env) (a : Args) : Bool :=
-  s.pieces.all pieceDollarFree && (piecesSafeRun env a .dflt s.pieces).isSome
+  s.clientFree || (s.pieces.all pieceDollarFree && (piecesSafeRun env a .dflt s.pieces).isSome)
 
 /-- Same list lengths (the number of ids in a batch / of edge labels is part of the request's
     structure, not of the identifiers' content). -/
